@@ -149,3 +149,11 @@ VARIANTS += [
       "        obj.game_plan_dtype = int_range_to_dtype(0, n)", "fire",
       "D15.5"),
 ]
+
+VARIANTS += [
+    V("games-skipped-by-marker", G,
+      "        home_idx: int = (game // div) % n  # home idx is in 0..n-1\n",
+      "        home_idx: int = (game // div) % n  # home idx is in 0..n-1\n"
+      "        if home_idx == days:\n            continue\n", "fire",
+      "D15.1", "a game jumps over the day scan"),
+]
